@@ -1,7 +1,7 @@
 ------------------------------ MODULE T_C14 ------------------------------
 (* Trace specification for C14: for every recorded run of the real          *)
 (* compute_function_signatures and every function f of the program          *)
-(*        ParamWalk!MustBeParam(C, f)  \subseteq  reported(f)               *)
+(*        ParamWalk!MustBeParamFull(C, f)  \subseteq  reported(f)           *)
 (* (one direction only: extra reported parameters are never an alarm).      *)
 (* event: [ev |-> "c14", project,                                           *)
 (*         reported |-> <<[f |-> function TID, regs |-> <<names>>]...>>,    *)
@@ -35,19 +35,38 @@ InClass(e) ==
   /\ \A i, j \in DOMAIN P.externs : P.externs[i].name = P.externs[j].name => i = j
 
 ReportedOf(e, f) == UNION {SeqRange(e.reported[i].regs) : i \in {x \in DOMAIN e.reported : e.reported[x].f = f}}
-\* function TID -> the registers that must be reported but are not
-Missing(e) ==
-  LET C == Context(e.project)
-      M == MustBeParamAll(C)
-  IN  [f \in {g \in DOMAIN M : M[g] \ ReportedOf(e, g) # {}} |-> M[f] \ ReportedOf(e, f)]
+\* <<function TID, register>> pairs that must be reported but are not
+MissingOf(e, M) == UNION {{<<f, r>> : r \in M[f] \ ReportedOf(e, f)} : f \in DOMAIN M}
 
-EventOK(e) == ~InClass(e) \/ (e.panic = "" /\ DOMAIN Missing(e) = {})
+EventOK(e) ==
+  \/ ~InClass(e)
+  \/ /\ e.panic = ""
+     /\ MissingOf(e, MustBeParamFullAll(Context(e.project))) = {}
+
+\* Classification of a rejected event (printed in the BAD line; the driver uses it to tell the
+\* recorded defect classes from any other miss):
+\*   "panic"      the analysis panicked
+\*   "violation"  a register of MustBeParamReturning is missing: nothing excuses it
+\*   otherwise    every missing register is only in MustBeParamFull; the "+"-joined reason classes
+Join(R) ==
+  (IF "noreturn-call-read" \in R THEN "noreturn-call-read+" ELSE "")
+  \o (IF "call-without-return-site" \in R THEN "call-without-return-site+" ELSE "")
+  \o (IF "callee-nonreturning-path" \in R THEN "callee-nonreturning-path+" ELSE "")
+Class(e) ==
+  IF e.panic # "" THEN "panic"
+  ELSE LET C == Context(e.project)
+           A == Analysis(C)
+       IN  IF MissingOf(e, A.ret) # {} THEN "violation"
+           ELSE Join(UNION {MissReasons(C, A, m[1], m[2]) : m \in MissingOf(e, A.full)})
+Detail(e) ==
+  LET A == Analysis(Context(e.project))
+  IN  <<"missing-returning", MissingOf(e, A.ret), "missing-full", MissingOf(e, A.full)>>
 
 Init == l = 1
 Next == /\ l <= Len(Rec)
         /\ l' = l + 1
         /\ IF EventOK(Rec[l]) THEN TRUE
-           ELSE PrintT(<<"BAD", l>>) /\ PrintT(<<"DETAIL", l, Rec[l].panic, "missing", Missing(Rec[l])>>)
+           ELSE PrintT(<<"BAD", l, Class(Rec[l])>>) /\ PrintT(<<"DETAIL", l, Rec[l].panic, Detail(Rec[l])>>)
 Spec == Init /\ [][Next]_l
 Accepted == TLCGet("stats").diameter - 1 = Len(Rec)
 Post == IF Accepted THEN TRUE ELSE PrintT(<<"UNCONSUMED", TLCGet("stats").diameter>>) /\ FALSE
